@@ -405,6 +405,9 @@ class Counters(EngineBase):
                 ops.append({"op": "ev", "ev": {"ev": "advance", "dt":
                                                rng.choice([0.0, 0.001, 0.1,
                                                            1.0, 2.5])}})
+            if rng.random() < 0.04:
+                ops.append({"op": "ev", "ev": {
+                    "ev": "ncpu_online", "n": rng.choice([1, 2, 4, 8, 16])}})
             if rng.random() < 0.4:
                 ops.append({"op": "ev", "ev": {
                     "ev": "proc_tick", "pid": rng.choice(pids),
@@ -532,6 +535,8 @@ class Counters(EngineBase):
         def near(a, b):
             return abs(a - b) <= 0.05 + 1e-9 * max(1.0, abs(b))
 
+        ncpu_seen = {}
+
         for idx, op in enumerate(plan["ops"], start=1):
             kind = op["op"]
             if kind == "ev":
@@ -645,6 +650,10 @@ class Counters(EngineBase):
                 h = handles[op["h"] % len(handles)]
                 prs = [r for r in k.procstat_reads[pr0:] if r[2] == h.pid]
                 exp = None
+                n_prev = ncpu_seen.get(id(h))
+                ncpu_seen[id(h)] = k.ncpu_online
+                if n_prev is not None and n_prev != k.ncpu_online:
+                    tags.append("ncpu_changed_since_previous_call")
                 if blocking:
                     if len(prs) >= 2:
                         a, b = prs[0], prs[-1]
